@@ -292,6 +292,31 @@ def resource_catalogue():
     fit("get", "o: int? = 1\nx = ", "get ", "o", "")
     fit("typeof", "x = ", "typeof ", "1", "")
     fit("optional_marks", "x: int", "?", "", "", " = nil")
+    # the shortest spelling of each construct reaches deeper than the readable one
+    fit("block_if_short", "a = true\n", "if a{", "", "}")
+    fit("block_if_short_unclosed", "a = true\n", "if a{", "", "")
+    fit("fn_literal_short", "f = ", "fn(){", "", "}")
+    fit("while_short", "a = false\n", "while a{", "", "}")
+    fit("from_short", "", "from 0 to 1{", "", "}")
+    one("ident_sum_4k", "a = 1\nx = a" + "+a" * 1990 + "\n")
+    one("ident_and_4k", "a = true\nx = a" + "&&a" * 1300 + "\n")
+    one("ident_cmp_sum_4k", "a = 1\nx = a" + "+a" * 900 + " < a" + "*a" * 900 + "\n")
+    one("str_ident_concat_4k", 'a = "s"\nx = a' + "+a" * 1990 + "\n")
+    one("method_chain_4k", 'a = "s"\nx = a' + ".reverse()" * 390 + "\n")
+    # a few dozen unclosed brackets: the generated parser backtracked exponentially (26 s at 20 levels)
+    for n_ in (12, 16, 20, 24, 32, 48, 64, 100, 127):
+        one("list_unclosed_x%d" % n_, "x = " + "[" * n_ + "1\n")
+        one("paren_unclosed_x%d" % n_, "x = " + "(" * n_ + "1\n")
+        one("list_paren_unclosed_x%d" % n_, "x = " + "[(" * (n_ // 2) + "1\n")
+        one("listtype_unclosed_x%d" % n_, "x: " + "[" * n_ + "int\n")
+        one("call_unclosed_x%d" % n_, "f = fn(a: int) -> int { return a }\nx = " + "f(" * n_ + "1\n")
+        one("index_unclosed_x%d" % n_, "c: [int...] = [0]\nx = " + "c[" * n_ + "0\n")
+        one("map_unclosed_x%d" % n_, "x = " + "map[int, int] { 1: " * min(n_, 60) + "1\n")
+        one("block_unclosed_x%d" % n_, "a = true\n" + "if a {" * n_ + "\n")
+        one("list_closed_wrong_x%d" % n_, "x = " + "[" * n_ + "1" + ")" * n_ + "\n")
+    # an unterminated `###` is a line comment: what follows is code
+    one("unterminated_blockcomment_then_nesting", "### never closed\nx = " + "(" * 1500 + "1" + ")" * 1500 + "\n")
+    one("blockcomment_hides_brackets", "### " + "(" * 500 + " ###\nx = 1\nprint x\n")
     one("binop_4k", "x = 1" + " + 1" * 998 + "\n")
     one("cmp_chain_4k", "x = 1" + " < 1" * 990 + "\n")
     one("and_chain_4k", "x = true" + " && true" * 490 + "\n")
